@@ -1112,13 +1112,17 @@ func isTimeTime(t types.Type) bool {
 // the conversion helper, and records which parameters it depends on.
 func keyExpr(f *ssa.Function, v ssa.Value, d int) (string, map[*ssa.Parameter]bool) {
 	deps := map[*ssa.Parameter]bool{}
+	subst := map[*ssa.Parameter]string{} // parameters of inlined helpers → the caller's expression
 	var rec func(v ssa.Value, d int) string
 	rec = func(v ssa.Value, d int) string {
-		if d > 20 {
+		if d > 30 {
 			return "…"
 		}
 		switch x := v.(type) {
 		case *ssa.Parameter:
+			if e, ok := subst[x]; ok {
+				return e
+			}
 			deps[x] = true
 			return "$"
 		case *ssa.Const:
@@ -1146,6 +1150,51 @@ func keyExpr(f *ssa.Function, v ssa.Value, d int) (string, map[*ssa.Parameter]bo
 			name := "call"
 			if cal := x.Common().StaticCallee(); cal != nil {
 				name = cal.Name()
+				// a small package helper of one argument (latestTimestamp(o)): its result expression with the argument put in
+				// place of its parameter
+				if cal.Pkg == f.Pkg && cal.Blocks != nil && len(cal.Params) == 1 && len(x.Common().Args) == 1 && len(cal.Blocks) <= 6 && cal != f {
+					if _, busy := subst[cal.Params[0]]; !busy {
+						rbs := returnBlocks(cal)
+						subst[cal.Params[0]] = rec(x.Common().Args[0], d+1)
+						out := ""
+						switch len(rbs) {
+						case 1:
+							if ret := rbs[0].Instrs[len(rbs[0].Instrs)-1].(*ssa.Return); len(ret.Results) == 1 {
+								out = rec(ret.Results[0], d+1)
+							}
+						case 2:
+							// if c { return a }; return b
+							r0 := rbs[0].Instrs[len(rbs[0].Instrs)-1].(*ssa.Return)
+							r1 := rbs[1].Instrs[len(rbs[1].Instrs)-1].(*ssa.Return)
+							if len(r0.Results) == 1 && len(r1.Results) == 1 {
+								for _, cand := range []*ssa.BasicBlock{rbs[0].Idom(), rbs[1].Idom()} {
+									if cand == nil {
+										continue
+									}
+									if ifi, ok := cand.Instrs[len(cand.Instrs)-1].(*ssa.If); ok {
+										var tv, fv ssa.Value
+										for i, rb := range rbs {
+											res := []ssa.Value{r0.Results[0], r1.Results[0]}[i]
+											if cand.Succs[0] == rb || cand.Succs[0].Dominates(rb) {
+												tv = res
+											} else {
+												fv = res
+											}
+										}
+										if tv != nil && fv != nil {
+											out = "ite(" + rec(ifi.Cond, d+1) + "," + rec(tv, d+1) + "," + rec(fv, d+1) + ")"
+										}
+										break
+									}
+								}
+							}
+						}
+						delete(subst, cal.Params[0])
+						if out != "" {
+							return out
+						}
+					}
+				}
 			}
 			var as []string
 			for _, a := range allArgs(x) {
